@@ -225,6 +225,60 @@ def orphans(order=0):
     return Game("orphans(%d)" % order, pl, tl, [idx["F"]], rw)
 
 
+def p1_final(owner=P1):
+    """a final state that is owned by a player, is not absorbing and has actions of different value and reward"""
+    return Game("p1_final(%s)" % owner[-1], [PR, owner, PR, PR, PR, PR],
+                [[(1, 1)], [("stay", 2), ("leave", 3)], [(1, 4)], [(0.5, 4), (0.5, 5)], [(1, 4)], [(1, 5)]], [1, 4],
+                [0, 0, 1, 5, 0, 0])
+
+
+def init_final():
+    """the initial state is itself final (value 1) and not absorbing"""
+    return Game("init_final", [PR, PR, PR, PR], [[(0.5, 1), (0.5, 2)], [(1, 3)], [(1, 2)], [(1, 3)]], [0, 3], [1, 2, 0, 0])
+
+
+def big_rewards(owner=P2, order=(0, 1, 2)):
+    """rewards of the order of 10^6 that differ by whole units"""
+    acts = [("x", 1), ("y", 2), ("z", 3)]
+    acts = [acts[i] for i in order]
+    return Game("big_rewards(%s,%s)" % (owner[-1], "".join(map(str, order))), [owner, PR, PR, PR, PR],
+                [acts, [(1, 4)], [(1, 4)], [(1, 4)], [(1, 4)]], [4], [0, 3000000, 3000002, 3000000, 0])
+
+
+def dup_actions():
+    """a Player 1 state that uses the same action name on two transitions"""
+    return Game("dup_actions", [P1, PR, PR, PR, PR],
+                [[("north", 1), ("north", 2), ("east", 3)], [(1, 4)], [(1, 4)], [(1, 4)], [(1, 4)]], [4], [0, 10, 1, 5, 0])
+
+
+def decimals():
+    """decimal probabilities whose float sum is not exactly 1 (0.6 + 0.3 + 0.1)"""
+    return Game("decimals", [P1, PR, PR, PR, PR],
+                [[("a", 1), ("b", 2)], [(0.6, 3), (0.3, 3), (0.1, 4)], [(0.7, 3), (0.2, 4), (0.1, 3)], [(1, 3)], [(1, 4)]], [3],
+                [0, SYM, SYM, 0, 0])
+
+
+def tie_small():
+    """an exact tie below 0.1: 1/20 directly versus 1/20 as the limit of a chance self-loop"""
+    return Game("tie_small", [P1, PR, PR, PR, PR, P2],
+                [[("a", 1), ("b", 2), ("c", 5)], [(0.05, 3), (0.95, 4)], [(0.2, 2), (0.04, 3), (0.76, 4)], [(1, 3)], [(1, 4)],
+                 [("u", 1), ("v", 2)]], [3], [0, 1, 1, 0, 0, 0])      # (concrete rewards: the self-loop makes symbolic ones dear)
+
+
+def all_live_orphan():
+    """every state has positive reachability value, and one chance state is pointed at by nobody"""
+    return Game("all_live_orphan", [P1, PR, PR, PR, PR],
+                [[("a", 1), ("b", 2)], [(0.5, 3), (0.5, 2)], [(1, 3)], [(1, 3)], [(0.5, 1), (0.5, 3)]], [3], [1, 2, 1, 0, 7])
+
+
+def p2_shared(variant):
+    """two games with an identical Player 2 node (index, reward, transitions) whose successors differ in value"""
+    pa, pb = (0.25, 0.75) if variant == "a" else (0.75, 0.25)
+    return Game("p2_shared(%s)" % variant, [P1, P2, PR, PR, PR, PR],
+                [[("go", 1), ("alt", 3)], [("x", 2), ("y", 3)], [(pa, 4), (1 - pa, 5)], [(pb, 4), (1 - pb, 5)], [(1, 4)], [(1, 5)]], [4],
+                [0, 1, 3, 1, 0, 0])
+
+
 def slow_chain():
     """KF-1: self-loop of probability 1-1e-7; value iteration stops far from the value"""
     return Game("slow_chain", [PR, PR], [[(1 - 1e-7, 0), (1e-7, 1)], [(1, 1)]], [1], [0, 0])
